@@ -78,6 +78,7 @@ fn check(prop: &str, tier: Tier) -> i32 {
         "C06" => props::ide_sweep::run(props::ide_sweep::Which::C06, tier),
         "C07" => props::rename::run_c07(tier),
         "C08" => props::rename::run_c08(tier),
+        "C09" => props::typing::run(tier),
         "C10" => props::ide_sweep::run(props::ide_sweep::Which::C10, tier),
         "C20" => props::ide_sweep::run(props::ide_sweep::Which::C20, tier),
         "C15" => props::messages::run(tier),
@@ -116,6 +117,7 @@ fn replay(path: &str) -> i32 {
         "C06" => props::ide_sweep::replay(props::ide_sweep::Which::C06, w),
         "C07" => props::rename::replay_c07(w),
         "C08" => props::rename::replay_c08(w),
+        "C09" => props::typing::replay(w),
         "C10" => props::ide_sweep::replay(props::ide_sweep::Which::C10, w),
         "C20" => props::ide_sweep::replay(props::ide_sweep::Which::C20, w),
         "C15" => props::messages::replay(w),
